@@ -194,6 +194,7 @@ class Extracted:
         self.dropped = []
         self.notes = []
         self.unannotated = {}
+        self.alloc_sites = []
 
 
 def locate_fn(toks, relpath, name, item):
@@ -299,7 +300,106 @@ def region_edits(src, toks, relpath, name, spec, ex, lo_tok, hi_tok, body_lo_tok
             ex.rewrites.append({'rule': rule, 'where': '%s:%d' % (relpath, line), 'fn': name,
                                 'before': src[pos[0]:pos[1]], 'after': new})
     edits.extend(auto_rewrites(src, toks, lo_tok, hi_tok, relpath, name, spec, ex))
+    if ex.unit.get('alloc_guard'):
+        edits.extend(alloc_guards(src, toks, lo_tok, hi_tok, relpath, name, ex))
     return edits, loops
+
+
+def spec_size_expr(src, toks, a, b):
+    """Translate the exec expression toks[a..b] (an allocation size) into a spec expression:
+    `X.min(Y)` / `X.max(Y)` become alloc_min / alloc_max; everything else is kept verbatim.
+    Returns None when the expression contains something else that is not plain arithmetic."""
+    out = []
+    i = a
+    while i <= b:
+        t = toks[i]
+        if t.kind == 'punct' and t.text == '.' and i + 2 <= b and toks[i + 1].text in ('min', 'max') \
+                and toks[i + 2].text == '(':
+            close = rtok.match_close(toks, i + 2)
+            inner = spec_size_expr(src, toks, i + 3, close - 1)
+            if inner is None or not out:
+                return None
+            recv = out.pop()
+            out.append('alloc_%s((%s) as int, (%s) as int)' % (toks[i + 1].text, recv, inner))
+            i = close + 1
+            continue
+        if t.kind in ('ident', 'num') or (t.kind == 'punct' and t.text in ('+', '-', '*', '/', '(', ')', '::')):
+            if t.kind == 'ident' and i + 1 <= b and toks[i + 1].text == '(' and t.text not in ('usize', 'u64'):
+                return None     # a call other than min/max
+            if out and (t.text == '::' or out[-1].endswith('::')):
+                out[-1] += t.text
+            else:
+                out.append(t.text)
+            i += 1
+            continue
+        if t.kind == 'ident' and t.text == 'as':
+            i += 2
+            continue
+        return None
+    # glue: operands were collected as separate words; join conservatively
+    return ' '.join(out)
+
+
+def alloc_guards(src, toks, lo_tok, hi_tok, relpath, name, ex):
+    """C05: before every statement that allocates with a size taken from a value
+    (`vec![e; N]`, `with_capacity(N)`, `.reserve(N)`, `.resize(N, ..)`) inject
+    `assert(alloc_ok(N))`.  The sites are found by token scan on every run, so a new
+    allocation site is guarded too."""
+    edits = []
+    sites = []
+    i = lo_tok
+    while i <= hi_tok:
+        t = toks[i]
+        if t.kind == 'ident' and t.text == 'vec' and toks[i + 1].text == '!' and toks[i + 2].text == '[':
+            close = rtok.match_close(toks, i + 2)
+            semi = [j for j in range(i + 3, close) if toks[j].text == ';']
+            if semi:
+                sites.append((i, semi[-1] + 1, close - 1, 'vec![_; N]'))
+            i = close
+        elif t.kind == 'ident' and t.text in ('with_capacity', 'reserve', 'reserve_exact') and toks[i + 1].text == '(':
+            close = rtok.match_close(toks, i + 1)
+            sites.append((i, i + 2, close - 1, t.text + '(N)'))
+        elif t.kind == 'ident' and t.text == 'resize' and toks[i + 1].text == '(' and toks[i - 1].text == '.':
+            close = rtok.match_close(toks, i + 1)
+            depth = 0
+            comma = None
+            for j in range(i + 2, close):
+                if toks[j].text in ('(', '[', '{'):
+                    depth += 1
+                elif toks[j].text in (')', ']', '}'):
+                    depth -= 1
+                elif toks[j].text == ',' and depth == 0:
+                    comma = j
+                    break
+            if comma:
+                sites.append((i, i + 2, comma - 1, 'resize(N, _)'))
+        i += 1
+    for at, a, b, kind in sites:
+        # start of the enclosing statement
+        j = at
+        depth = 0
+        while j > lo_tok:
+            p = toks[j - 1]
+            if p.kind == 'punct' and p.text in (')', ']', '}'):
+                depth += 1
+            elif p.kind == 'punct' and p.text in ('(', '[', '{'):
+                if depth == 0:
+                    break
+                depth -= 1
+            elif p.kind == 'punct' and p.text == ';' and depth == 0:
+                break
+            elif p.kind == 'punct' and p.text == '=>' and depth == 0:
+                break
+            j -= 1
+        spec_e = spec_size_expr(src, toks, a, b)
+        where = '%s:%d' % (relpath, toks[at].line)
+        if spec_e is None:
+            raise Undecided('unsupported', 'fn %s: allocation size `%s` at %s is not an expression the allocation '
+                            'guard understands' % (name, src[toks[a].start:toks[b].end], where))
+        text = 'assert(alloc_ok((%s) as int)); //@ C05 alloc:size-bounded-by-constant %s %s\n' % (spec_e, kind, where)
+        edits.append((toks[j].start, 0, text, 'inject:alloc-guard'))
+        ex.alloc_sites.append({'fn': name, 'where': where, 'kind': kind, 'size_expr': src[toks[a].start:toks[b].end]})
+    return edits
 
 
 def apply_edits(src, lo, hi, edits, name):
@@ -653,7 +753,25 @@ def extract_unit(unit_dir):
         spec = specs.get(key)
         used.add(key)
         try:
-            extract_fn(src, toks, rel, item, spec, ex)
+            mark = (len(ex.pieces), len(ex.functions), len(ex.rewrites))
+            try:
+                extract_fn(src, toks, rel, item, spec, ex)
+            except Undecided as e:
+                if e.reason == 'anchor-lost' and item.get('optional') and '0 candidates' in e.detail:
+                    ex.notes.append('optional item %s is not present in %s' % (key, rel))
+                    continue
+                if e.reason != 'anchor-lost' or spec is None or not (spec.anchors or spec.loops) or 'start' in item:
+                    raise
+                # The proof scaffolding (loop invariants, anchored hints) no longer fits the code.
+                # Fall back to the bare contract: loops are havoc'd, so a failing obligation is only
+                # reported as a violation when a concrete witness confirms it (see check.py).
+                del ex.pieces[mark[0]:], ex.functions[mark[1]:], ex.rewrites[mark[2]:]
+                bare = FnSpec(spec.name)
+                bare.props, bare.sig, bare.ret, bare.rewrites, bare.attrs = spec.props, spec.sig, spec.ret, spec.rewrites, spec.attrs
+                ex.notes.append('fn %s: proof scaffolding does not fit the current code (%s); verified against the bare '
+                                'contract only' % (key, e.detail))
+                ex.unannotated.setdefault(key, []).append('scaffolding-lost: ' + e.detail)
+                extract_fn(src, toks, rel, item, bare, ex)
         except rtok.TokenizeError as e:
             raise Undecided('unsupported', '%s: %s' % (rel, e))
     for nm in specs:
